@@ -42,59 +42,59 @@ SURV_RULE = ("populations of 1..16 individuals, 1..5 objectives (grid-valued tie
 
 PROPERTIES = {
     "C01": {
-        "components": [("variant", 400, 12000), ("dem", 250, 8000), ("dex", 150, 4000), ("repair", 150, 4000)],
+        "components": [("variant", 400, 60000), ("dem", 250, 40000), ("dex", 150, 20000), ("repair", 150, 20000)],
         "rule": OPS_RULE + "the call returned offspring (variant/dem), the mask is observable (dex), a bound is violated (repair)",
         "explanation": "theorem offspring_in_bounds: every offspring coordinate is in [xl,xu] for all F, gamma, differences, masks and draws in [0,1); correspondence: selection matrix, repaired mutants and trials equal the Lean model bit for bit; the oracle checks the real floats against the bounds",
         "assumptions": ["parents in bounds", "draws in [0,1)", "pymoo PM keeps in-bounds vectors in bounds (checked on every record)",
                         "IEEE rounding of bounce-back/rand-init cannot cross a bound (argued in DESIGN.md, checked on every record)"],
     },
     "C09": {
-        "components": [("des", 600, 20000), ("variant", 200, 6000)],
+        "components": [("des", 600, 100000), ("variant", 200, 30000)],
         "rule": OPS_RULE + "at least one re-selection round happened (des)",
         "explanation": "theorems fillCols_spec / *_spec / ranked_spec: drawn parents valid, distinct, differ from target (and best), documented columns, ranked = permutation with best base and directed pairs; correspondence: parent matrix equal to the model's on the recorded choice() vectors, call signatures included",
         "assumptions": ["partial correctness: the re-selection loops terminate with probability one, not certainly",
                         "population index 0 is the top-ranked individual (established by the survival operators, C02/C04)"],
     },
     "C10": {
-        "components": [("dem", 500, 16000), ("variant", 250, 8000)],
+        "components": [("dem", 500, 80000), ("variant", 250, 40000)],
         "rule": OPS_RULE + "the call returned mutants",
         "explanation": "theorems mutant_formula, dither_range, jitter_range, nParents_eq, pairs_get; correspondence: mutants and differentials bit-equal to the model (every F / gamma / n_parents / calling convention)",
         "assumptions": ["draws in [0,1)"],
     },
     "C11": {
-        "components": [("repair", 400, 12000), ("dem", 300, 10000)],
+        "components": [("repair", 400, 60000), ("dem", 300, 50000)],
         "rule": OPS_RULE + "at least one coordinate violates a bound",
         "explanation": "theorems: repair is the identity on non-violating coordinates and each strategy's placement; correspondence: bitwise equality of the repaired matrix with the Lean model executed at Float on the same recorded draws; DEM.do compared with de_mutation under the same draws",
         "assumptions": ["draws in [0,1)"],
     },
     "C12": {
-        "components": [("dex", 400, 12000), ("mask", 300, 10000), ("variant", 200, 6000)],
+        "components": [("dex", 400, 60000), ("mask", 300, 50000), ("variant", 200, 30000)],
         "rule": OPS_RULE + "every mutant coordinate differs from the target's so the mask is observable (dex)",
         "explanation": "theorems trial_coord_cases, forceOne_any, bin_cr_one, bin_cr_zero_exactly_one, exp_cr_one, exp_cr_zero, expRow_block; correspondence: masks and trials bit-equal to the model on the recorded draws",
         "assumptions": ["draws in [0,1)"],
     },
     "C03": {
-        "components": [("surv", 1200, 40000)],
+        "components": [("surv", 1200, 200000)],
         "rule": SURV_RULE,
         "explanation": "theorems frontLoop_length / _nodup / _subset, survivalDo_unconstrained, survivalDo_constrained (C16.constr_length for the constrained class): exactly min(n_survive, n) distinct positions of the input; correspondence: survivor identity list and rank attributes equal the model's; object identity and X/F/G/H snapshots checked on the real objects",
         "assumptions": ["oracle contracts (IsFronts, argsort permutation, feasibility partition) hold - evaluated on every record"],
     },
     "C04": {
-        "components": [("surv", 1200, 40000)],
+        "components": [("surv", 1200, 200000)],
         "gen_args": {"surv": {"classes": ("rnc",)}},
         "rule": SURV_RULE,
         "explanation": "theorems frontLoop_rank_respect, first_front_kept, dom_rank_lt, no_discarded_dominates_survivor, isFronts_unique, feasible_first, infeasible_by_cv, rankOf_eq; correspondence as C03; the NDS result is checked against the exact peeling characterisation of fronts on every record",
         "assumptions": ["oracle contracts hold - evaluated on every record"],
     },
     "C16": {
-        "components": [("surv", 1200, 40000)],
+        "components": [("surv", 1200, 200000)],
         "gen_args": {"surv": {"classes": ("constr",)}},
         "rule": SURV_RULE,
         "explanation": "theorems fillLoop_eq_frontLoop, unconstrained_eq_rnc, feasible_part_eq_rnc, feasible_before_infeasible, fill_rank_respect, last_front_cut_by_cv, constr_length; correspondence: survivors equal the model's given the recorded oracles, the violation-space NDS is checked against IsFronts on [max(G,0), |H|] recomputed by the model; the oracle re-runs RankAndCrowding under the same seed",
         "assumptions": ["oracle contracts hold - evaluated on every record"],
     },
     "C02": {
-        "components": [("repl", 900, 30000), ("gen", 60, 2000)],
+        "components": [("repl", 900, 150000), ("gen", 60, 8000)],
         "gen_args": {"gen": {"algos": ["de"]}},
         "rule": "parent/offspring pairs of 1..10 slots on grid-valued decision vectors (exact duplicates between offspring and against members), objectives rounded to a grid (exact ties), 0..2 inequality and 0..1 equality constraints with shifted feasibility, the operator object fresh / the shared default of DE() / used before on a problem of the other kind; distinct = hash; non-trivial = some slots replaced and some kept",
         "explanation": "theorems improves_iff, isDuplicate_iff, slotChoice_get, replaceMaskAux_get, replaceStep_perm/_length/_sorted, replaceStep_no_worse, best_monotone (induction over any sequence of generations with universally quantified offspring); correspondence: replacement mask and next population (object identities, order) equal the model's",
@@ -102,40 +102,41 @@ PROPERTIES = {
                         "X-equality stands for DefaultDuplicateElimination(epsilon=0) (squared differences that underflow are not generated)"],
     },
     "C05": {
-        "components": [("gen", 160, 4000)],
+        "components": [("gen", 160, 16000)],
         "gen_args": {"gen": {"algos": ["gde3", "gde3mnn", "gde32nn", "gde3p"]}},
         "rule": "ask / external evaluation / tell loops of DE, NSDE, GDE3, GDE3MNN, GDE32NN, GDE3P, NSDE-R and the generic GeneticAlgorithm base (SBX or DEX crossover, PM, n_offsprings = or != pop_size) on random bounded problems (1..4 variables, 1..4 objectives, 0..2 constraints with shifted feasibility, grid-rounded objectives for exact ties), population sizes n_parents+1.., every selection / crossover / repair, five crowding metrics, RankAndCrowding / ConstrRankAndCrowding / the shared default survival object, optional PM, optionally after an unrelated run in the same process; one record per generation (2..5 per run): candidates handed to the survival, next population (object identities), optimum, sizes, evaluation counter, F(X) provenance; distinct = hash; non-trivial = an offspring entered the population",
         "explanation": "theorems getRelation_one_iff / _neg_one_iff, gde3Slot_spec, gde3Candidates_length_ge, dominated_offspring_not_candidate, dominated_parent_not_candidate; correspondence: the candidate list handed to survival.do and the next population equal the model's (identities, order)",
         "assumptions": ["individual identities are distinct (checked)", "survivors are candidates (C03)"],
     },
     "C06": {
-        "components": [("gen", 200, 5000)],
+        "components": [("gen", 200, 20000)],
         "gen_args": {"gen": {"algos": ["nsde", "gde3", "gde3mnn", "gde32nn", "gde3p", "nsder", "ga", "ea-dex"]}},
         "rule": "ask / external evaluation / tell loops of DE, NSDE, GDE3, GDE3MNN, GDE32NN, GDE3P, NSDE-R and the generic GeneticAlgorithm base (SBX or DEX crossover, PM, n_offsprings = or != pop_size) on random bounded problems (1..4 variables, 1..4 objectives, 0..2 constraints with shifted feasibility, grid-rounded objectives for exact ties), population sizes n_parents+1.., every selection / crossover / repair, five crowding metrics, RankAndCrowding / ConstrRankAndCrowding / the shared default survival object, optional PM, optionally after an unrelated run in the same process; one record per generation (2..5 per run): candidates handed to the survival, next population (object identities), optimum, sizes, evaluation counter, F(X) provenance; distinct = hash; non-trivial = an offspring entered the population",
         "explanation": "theorems pick_subset, nsde_new_pop_subset, gde3_new_pop_subset, no_survivor_dominated_by_discarded, nondominated_survive_if_fit, no_infeasible_over_feasible; NSDE-R: the reference-direction survival of pymoo is a checked oracle (contract evaluated on every record), the elitism clauses are checked on the real populations",
         "assumptions": ["oracle contracts hold - evaluated on every record", "NSDE-R survival is pymoo's; only its contract is used"],
     },
     "C07": {
-        "components": [("gen", 220, 5000)],
+        "components": [("gen", 220, 20000)],
         "rule": "ask / external evaluation / tell loops of DE, NSDE, GDE3, GDE3MNN, GDE32NN, GDE3P, NSDE-R and the generic GeneticAlgorithm base (SBX or DEX crossover, PM, n_offsprings = or != pop_size) on random bounded problems (1..4 variables, 1..4 objectives, 0..2 constraints with shifted feasibility, grid-rounded objectives for exact ties), population sizes n_parents+1.., every selection / crossover / repair, five crowding metrics, RankAndCrowding / ConstrRankAndCrowding / the shared default survival object, optional PM, optionally after an unrelated run in the same process; one record per generation (2..5 per run): candidates handed to the survival, next population (object identities), optimum, sizes, evaluation counter, F(X) provenance; distinct = hash; non-trivial = an offspring entered the population",
         "explanation": "theorems pick_ids_nodup, gde3Candidates_ids_nodup, advance_inv_unconstrained, advance_inv_constrained, merge_ok, gde3_ok, budget, reachable_inv, nsde_reachable_inv, gde3_reachable_inv (invariant by induction over histories); correspondence: next population equals the model's; sizes, evaluator counter and F(X)=stored F checked on the real objects every generation",
         "assumptions": ["offspring objects are fresh (checked)", "problem.evaluate is a pure function of X (checked by re-evaluation)",
                         "for the generic GeneticAlgorithm the infill is pymoo's Mating: only its output count is checked"],
     },
     "C08": {
-        "components": [("gen", 220, 5000)],
+        "components": [("gen", 220, 20000)],
         "rule": "ask / external evaluation / tell loops of DE, NSDE, GDE3, GDE3MNN, GDE32NN, GDE3P, NSDE-R and the generic GeneticAlgorithm base (SBX or DEX crossover, PM, n_offsprings = or != pop_size) on random bounded problems (1..4 variables, 1..4 objectives, 0..2 constraints with shifted feasibility, grid-rounded objectives for exact ties), population sizes n_parents+1.., every selection / crossover / repair, five crowding metrics, RankAndCrowding / ConstrRankAndCrowding / the shared default survival object, optional PM, optionally after an unrelated run in the same process; one record per generation (2..5 per run): candidates handed to the survival, next population (object identities), optimum, sizes, evaluation counter, F(X) provenance; distinct = hash; non-trivial = an offspring entered the population",
         "explanation": "theorems later_front_has_dominator, rank0_iff_nondominated, argminCv_spec, opt_infeasible, opt_feasible_only, de_opt_single; correspondence: algorithm.opt after every tell() equals the model's setOptimum on the model's next population and fresh ranks",
         "assumptions": ["oracle contracts hold", "NSDE-R: survival.opt is an oracle with contract 'feasible first-front candidates'"],
     },
     "C20": {
-        "components": [("spacing", 900, 30000)],
+        "components": [("spacing", 900, 150000)],
         "rule": "point sets of 2..30 points, 1..5 objectives (tie-rich grids, continuous at three scales, equally spaced lines, a constant objective, large offsets, injected duplicates), metrics cityblock / euclidean / chebyshev, all ideal / nadir / pf settings (none, both bounds, pf only, pf = F, pf + one bound, all three), each case also evaluated on a permuted, a translated and a scaled copy; distinct = hash; non-trivial = spacing > 0",
         "explanation": "theorems spacing_nonneg, spacing_zero_of_equal, spacingSq_perm, cityblock/chebyshev/sqEuclid_translate, cityblock_scale, spacingSq_scale, spacing_scale, secondSmallest_mem, normCoord_eq; correspondence: the value equals the Lean model at Float within 1e-9 relative (pdist / mean summation order is not replicated bit for bit); the oracle is a direct implementation of the definition",
         "assumptions": ["sqrt is an abstract function with sqrt 0 = 0, non-negativity and sqrt(c*c*x) = c*sqrt x", "scipy pdist computes the named metrics"],
     },
     "C13": {
-        "components": [("crowd3", 500, 12000)],
+        "components": [("crowd3", 500, 10000)],
+        "gen_args_thorough": {"crowd3": {"max_n": 200}},
         "parallel": True,
         "rule": "non-dominated fronts of 1..40 points (thorough: ..200), 2..5 objectives: simplex-like and spherical continuous fronts, grid-valued fronts (coordinate and distance ties), a constant objective, tied extremes, badly scaled objectives, fronts with duplicates; n_remove = 0, 1 or uniform in 0..N; each case is evaluated by the compiled raw kernel, the pure-Python raw function, and through get_crowding_function(label).do in a process with and without the compiled extensions; compiled pcd with >= 3 objectives runs in isolated worker processes and only where the Lean kernel model predicts no out-of-bounds index; distinct = hash; non-trivial = more than 2 points and n_remove > 1",
         "explanation": "theorems cdSorted_wellformed, cdSorted_ends_top, sumExt_wellformed, nnProduct_nonneg, mnnScratch_extremes_top (well-formedness of cd and of the pruning definitions); the compiled kernels are transcribed statement by statement with checked indexing (lean/PymoodeModel/Metrics/Kernel.lean) and *executed* per input: memory safety is decided per record by that interpreter, not proved for all inputs (partial); correspondence: cd / pcd / mnn / 2nn values of both engines equal the models bit for bit (ce: 1e-9), caller's array compared before/after; definitions checked against an independent greedy reference on tie-free fronts",
@@ -143,7 +144,7 @@ PROPERTIES = {
                         "kernel memory safety for all inputs is NOT proved; known findings F2-F4 are genuine out-of-bounds accesses"],
     },
     "C14": {
-        "components": [("crowd3", 500, 12000), ("spnn", 200, 6000), ("trunc", 150, 3000)],
+        "components": [("crowd3", 500, 10000), ("spnn", 200, 30000), ("trunc", 150, 6000)],
         "parallel": True,
         "rule": "non-dominated fronts of 1..40 points (thorough: ..200), 2..5 objectives: simplex-like and spherical continuous fronts, grid-valued fronts (coordinate and distance ties), a constant objective, tied extremes, badly scaled objectives, fronts with duplicates; n_remove = 0, 1 or uniform in 0..N; each case is evaluated by the compiled raw kernel, the pure-Python raw function, and through get_crowding_function(label).do in a process with and without the compiled extensions; compiled pcd with >= 3 objectives runs in isolated worker processes and only where the Lean kernel model predicts no out-of-bounds index; distinct = hash; non-trivial = more than 2 points and n_remove > 1",
         "explanation": "theorems: the pure-Python engine is the definition itself (Prune.lean is both); cd/ce are engine-independent; C20.secondSmallest_mem for the spacing helper; the two engines are compared input by input on the real code (values within 1e-9, infinities at the same points) and each against its own bit-exact Lean model; the compiled spacing helper is compared with the NumPy expression of SpacingIndicator",
@@ -151,15 +152,16 @@ PROPERTIES = {
                         "compiled mnn/2nn with distance ties and n_remove > 1 are not compared (argpartition tie order)"],
     },
     "C15": {
-        "components": [("trunc", 500, 12000), ("surv", 400, 8000)],
+        "components": [("trunc", 500, 10000), ("surv", 400, 40000)],
         "gen_args": {"surv": {"classes": ("rnc",)}},
+        "gen_args_thorough": {"trunc": {"max_n": 120}},
         "parallel": True,
         "rule": "single non-dominated fronts of 2M+2..36 points (thorough ..120), 2..4 objectives (continuous simplex / sphere fronts, grid-valued, constant objective, tied extremes, duplicates, badly scaled), truncated by RankAndCrowding to n_survive in [2M, N) (two thirds) or [1, N), five metrics, compiled engine in-process (pcd with >= 3 objectives only where the kernel model predicts no out-of-bounds index), a third also in the pure-Python engine in a worker process with the same seed; plus the mixed-front survival records of C03; distinct = hash; non-trivial = a front was cut",
         "explanation": "theorems take_keeps_top, boundary_retained, cdSorted_top_count, dropped_smallest (+ C13 extremes / well-formedness); the n_remove forwarded to the crowding function and the crowding values it returned are checked against the Lean metric models inside every survival record; the dropped set is compared with an independent one-at-a-time pruning reference on tie-free fronts (greedy equivalence is not proved: partial)",
         "assumptions": ["descending argsort contract (checked on every record)", "greedy-pruning equivalence rests on the reference comparison, not on a theorem"],
     },
     "C17": {
-        "components": [("repro", 160, 4000), ("gen", 120, 3000)],
+        "components": [("repro", 160, 8000), ("gen", 120, 12000)],
         "parallel": True,
         "level_text": "PARTIAL. Lean theorems over the run model (a run is a fold of a pure step: composition over splits of the draw stream, independence from the order / batching of external evaluation); that the real algorithm object has no more state than the model's is checked, not proved: ",
         "rule": "runs of DE, NSDE, GDE3(+MNN/2NN/P), NSDE-R and the generic base classes (3..6 generations, configurations as for C05-C08, optionally with a stateful user mutation, a user repair callable or a user CrowdingDiversity)" + ", each executed twice along different histories and compared generation by generation bit for bit: same seed repeated; after an unrelated run built from the same shared default objects with the same population size and other parameters; minimize() vs ask-and-tell; external one-by-one evaluation in a random order by a separate evaluator; next() vs ask/tell; with save_history; interleaved with another instance on its own generator state; in a fresh interpreter vs in-process after other work; plus the generation records of C05-C08 (next population = model step on the recorded draws and oracles). distinct = hash of the configuration; non-trivial = the run completed",
@@ -168,7 +170,7 @@ PROPERTIES = {
                         "random sources other than numpy's global generator are detected by tripwires on random.* and default_rng only when called during a recorded step"],
     },
     "C18": {
-        "components": [("resume", 90, 2500), ("gen", 60, 1500)],
+        "components": [("resume", 90, 5000), ("gen", 60, 6000)],
         "parallel": True,
         "level_text": "PARTIAL. Lean theorems over the run model (resume = uninterrupted run for every split point given restore . snapshot = id; history recording is neutral); restore . snapshot = id for pickle / dill / deepcopy of the real object graph is checked at every generation index, not proved: ",
         "rule": "runs of DE, NSDE, GDE3(+MNN/2NN/P), NSDE-R and the generic base classes (3..6 generations, configurations as for C05-C08, optionally with a stateful user mutation, a user repair callable or a user CrowdingDiversity)" + ", checkpointed with pickle / dill / copy.deepcopy together with numpy.random.get_state() after EVERY generation while the original keeps running; every copy is compared with the original at that time, resumed with the saved generator state, and all later populations and the reported optimum are compared bit for bit with the uninterrupted run; a third of the runs also with save_history=True vs False. non-trivial = at least two interruption points",
@@ -176,7 +178,7 @@ PROPERTIES = {
         "assumptions": ["the pickle protocol and object graphs are not modelled", "the generator state saved is numpy's global one"],
     },
     "C19": {
-        "components": [("stats", 52, 260), ("mask", 300, 8000), ("dex", 200, 6000), ("dem", 300, 8000), ("des", 300, 8000), ("repair", 200, 6000)],
+        "components": [("stats", 52, 260), ("mask", 300, 40000), ("dex", 200, 30000), ("dem", 300, 40000), ("des", 300, 40000), ("repair", 200, 30000)],
         "gen_args_thorough": {"stats": {"n_samples": 200000}},
         "parallel": True,
         "level_text": "PARTIAL. Lean theorems give each outcome as an exact event of NumPy's primitives (coordinate taken iff its draw < CR, block length >= k iff the first k draws < CR, dither / jitter / bounce-back / rand-init are affine bijections of [0,1) onto the stated segment, re-selection keeps the first admissible candidate and admissible values are exchangeable); that NumPy's primitives are i.i.d. uniform is trusted; ",
